@@ -169,6 +169,57 @@ pub fn op(sb: &Sbx, v: &Stdfs, name: &str, a: &[&str]) -> Option<String> {
         ("chmod", 2) => { let (p, m) = (s(0)?, oct(a[1])?); guarded(|| show_res(v.chmod(&p, m), |_| "u".to_string())) },
         ("copy", 2) => { let (x, y) = (s(0)?, s(1)?); guarded(|| show_res(v.copy(&x, &y), |_| "u".to_string())) },
         ("move_p", 2) => { let (x, y) = (s(0)?, s(1)?); guarded(|| show_res(v.move_p(&x, &y), |_| "u".to_string())) },
+        // assert <macro> x<path> [arg]: an assert_vfs_* macro on the Stdfs backend under catch_unwind
+        ("assert", _) if !a.is_empty() => {
+            let mac = a[0].to_string();
+            let p1 = arg_str(a.get(1)?)?;
+            let p2 = if a.len() > 2 { Some(a[2].to_string()) } else { None };
+            let msg = std::sync::Arc::new(std::sync::Mutex::new(String::new()));
+            let msg2 = msg.clone();
+            let prev = std::panic::take_hook();
+            std::panic::set_hook(Box::new(move |info| {
+                let m = if let Some(s) = info.payload().downcast_ref::<String>() { s.clone() } else if let Some(s) = info.payload().downcast_ref::<&str>() { s.to_string() } else { "?".to_string() };
+                *msg2.lock().unwrap() = m;
+            }));
+            let r = std::panic::catch_unwind(std::panic::AssertUnwindSafe(|| -> Option<()> {
+                match mac.as_str() {
+                    "exists" => { assert_vfs_exists!(v, &p1); },
+                    "no_exists" => { assert_vfs_no_exists!(v, &p1); },
+                    "is_dir" => { assert_vfs_is_dir!(v, &p1); },
+                    "no_dir" => { assert_vfs_no_dir!(v, &p1); },
+                    "is_file" => { assert_vfs_is_file!(v, &p1); },
+                    "no_file" => { assert_vfs_no_file!(v, &p1); },
+                    "is_symlink" => { assert_vfs_is_symlink!(v, &p1); },
+                    "no_symlink" => { assert_vfs_no_symlink!(v, &p1); },
+                    "read_all" => { let d = arg_str(p2.as_ref()?)?; assert_vfs_read_all!(v, &p1, d); },
+                    "readlink" => { let d = PathBuf::from(arg_str(p2.as_ref()?)?); assert_vfs_readlink!(v, &p1, d); },
+                    "readlink_abs" => { let d = arg_str(p2.as_ref()?)?; assert_vfs_readlink_abs!(v, &p1, &d); },
+                    "mkdir_p" => { assert_vfs_mkdir_p!(v, &p1); },
+                    "mkdir_m" => { let m = oct(p2.as_ref()?)?; assert_vfs_mkdir_m!(v, &p1, m); },
+                    "mkfile" => { assert_vfs_mkfile!(v, &p1); },
+                    "write_all" => { let d = arg_bytes(p2.as_ref()?)?; assert_vfs_write_all!(v, &p1, &d); },
+                    "copyfile" => { let d = arg_str(p2.as_ref()?)?; assert_vfs_copyfile!(v, &p1, &d); },
+                    "symlink" => { let d = arg_str(p2.as_ref()?)?; assert_vfs_symlink!(v, &p1, &d); },
+                    "remove" => { assert_vfs_remove!(v, &p1); },
+                    "remove_all" => { assert_vfs_remove_all!(v, &p1); },
+                    _ => return None,
+                }
+                Some(())
+            }));
+            std::panic::set_hook(prev);
+            match r {
+                Ok(Some(())) => "ok pass".to_string(),
+                Ok(None) => return None,
+                Err(_) => {
+                    let m = msg.lock().unwrap().clone();
+                    let t = m.trim_start_matches('\n');
+                    let (name, rest) = match t.split_once(": ") { Some(x) => x, None => (t, "") };
+                    let text = rest.split('\n').next().unwrap_or("");
+                    let structured = m.starts_with('\n') && m.contains("\n  target: ");
+                    format!("ok panic|{}|{}", name, if structured { hex(text.as_bytes()) } else { "ERR".to_string() })
+                },
+            }
+        },
         _ => {
             let _ = raw;
             return None;
